@@ -80,11 +80,23 @@ def run_group(cdir, target_dir, harnesses, timeout_s, mem_gb, extra_args, log_pa
     env = dict(os.environ)
     env.update(KANI_ENV)
     t0 = time.time()
+    # own process group: on timeout the whole tree (cargo -> kani-driver -> cbmc) is killed, not just cargo
+    lim = _limit(mem_gb)
+
+    def pre():
+        os.setsid()
+        lim()
+    p = subprocess.Popen(cmd, cwd=cdir, env=env, stdout=subprocess.PIPE, stderr=subprocess.PIPE, text=True, preexec_fn=pre)
     try:
-        p = subprocess.run(cmd, cwd=cdir, env=env, capture_output=True, text=True, timeout=timeout_s, preexec_fn=_limit(mem_gb))
-        out = p.stdout + "\n" + p.stderr
-    except subprocess.TimeoutExpired as e:
-        out = (e.stdout.decode() if isinstance(e.stdout, bytes) else (e.stdout or "")) + "\nGROUP TIMEOUT after %ds\n" % timeout_s
+        so, se = p.communicate(timeout=timeout_s)
+        out = so + "\n" + se
+    except subprocess.TimeoutExpired:
+        try:
+            os.killpg(p.pid, 9)
+        except ProcessLookupError:
+            pass
+        so, se = p.communicate()
+        out = (so or "") + "\nGROUP TIMEOUT after %ds\n" % timeout_s
     with open(log_path, "w") as f:
         f.write(out)
     return parse_kani_output(out, harnesses), time.time() - t0, out
@@ -117,12 +129,20 @@ def prepare_targets(cdir, build_root, n, log_path=None, warm_harness=None):
     return True, ""
 
 
-def run_all(cdir, build_root, harnesses, workers, timeout_s, mem_gb, extra_args=None):
-    """Split harnesses round-robin into `workers` groups and run them concurrently."""
+def run_all(cdir, build_root, harnesses, workers, timeout_s, mem_gb, extra_args=None, weights=None):
+    """Split harnesses into `workers` groups and run them concurrently: round-robin, or (with `weights`, the
+    expected seconds per harness) longest-first onto the least loaded group so that no group is the straggler."""
     extra_args = extra_args or []
     groups = [[] for _ in range(max(1, min(workers, len(harnesses))))]
-    for i, h in enumerate(harnesses):
-        groups[i % len(groups)].append(h)
+    if weights:
+        load = [0.0] * len(groups)
+        for h in sorted(harnesses, key=lambda h: -weights.get(h, 1.0)):
+            gi = load.index(min(load))
+            groups[gi].append(h)
+            load[gi] += weights.get(h, 1.0) + 5.0
+    else:
+        for i, h in enumerate(harnesses):
+            groups[i % len(groups)].append(h)
     results = {}
     logs = []
     with cf.ThreadPoolExecutor(max_workers=len(groups)) as pool:
